@@ -1,19 +1,18 @@
 CONSTANTS
-  Publishers = {"A", "B"}
+  Publishers = {"A"}
   Readers = {"r"}
-  RemoteReaders = {"r"}
+  RemoteReaders = {}
   Keys <- KeysSeq
   HasCache = TRUE
   MaxFaults = 0
-  InitEpochs = 2
-  ReaderLag = 2
+  InitEpochs = 1
+  ReaderLag = 0
   RecheckEpochAfterBegin = TRUE
   FlagHeldThroughDbWrite = TRUE
   RootHashBeforeCommit = TRUE
-  PrevEpochChecked = FALSE
-  ExportSched = FALSE
-VIEW View
+  PrevEpochChecked = TRUE
+  ExportSched = TRUE
 INIT MCInit
 NEXT MCNext
-INVARIANTS AnswersArePublished EpochsDistinct FinalEqualsSerial
+INVARIANTS AnswersArePublished EpochsDistinct FinalEqualsSerial ExportAtEnd
 CHECK_DEADLOCK FALSE
